@@ -211,6 +211,12 @@ structure PollSlot where
   watch : Option Nat
 deriving DecidableEq, Repr, Inhabited
 
+/-- Where the file-scope `signal_observer` of evloop-default.c points, seen from the instance whose
+    `struct Tickit`/`EventLoopData` the state describes: at this instance's loop, at the loop of another
+    toplevel instance of the process, or nowhere (`NULL`). -/
+inductive Observer | self | other | none
+deriving DecidableEq, Repr, Inhabited
+
 /-- The harness's table of watch slots. -/
 structure SlotRec where
   k : Int
@@ -242,6 +248,10 @@ structure St where
   signums : List Int := []           -- `nsignals` = length
   watched : List Int := []           -- watched_signals
   pendingSig : List Int := []        -- pending_signals (members among 1 … NSIG-1)
+  /-- `signal_observer` (file scope of evloop-default.c), relative to this instance -/
+  observer : Observer := .self
+  /-- `signal_observer->pending_signals` when the observer is another instance's loop (Model/EvLoopMulti.lean) -/
+  otherPending : List Int := []
   -- process / kernel
   blocked : List Int := []
   handled : List Int := []
@@ -304,12 +314,19 @@ def setErase (s : Int) (l : List Int) : List Int := l.filter (· ≠ s)
 
 /-! ### the kernel's signal semantics (hypothesis `OsPpoll` of C18, implemented by the harness) -/
 
+/-- `sighandler` (evloop-default.c 52–57): `if(signal_observer) sigaddset(&signal_observer->pending_signals, signum);` -/
+def sigRecord (st : St) (s : Int) : St :=
+  match st.observer with
+  | .self => { st with pendingSig := setInsert s st.pendingSig }
+  | .other => { st with otherPending := setInsert s st.otherPending }
+  | .none => st
+
 /-- `raise(s)` while the process runs (outside `ppoll`): blocked → stays pending; otherwise a handler
-    (the loop's `sighandler`: `sigaddset(&pending_signals, s)`) or the default action runs. -/
+    (the loop's `sighandler`) or the default action runs. -/
 def raiseSig (st : St) (s : Int) : St :=
   if !st.isOk then st
   else if st.blocked.contains s then { st with kpending := setInsert s st.kpending }
-  else if st.handled.contains s then { st with pendingSig := setInsert s st.pendingSig }
+  else if st.handled.contains s then sigRecord st s
   else if sigTerminates s then { st with status := .killed s }
   else st
 
@@ -837,9 +854,13 @@ def readyOf (st : St) (fd : Int) : Nat :=
 def pollRevents (st : St) (s : PollSlot) : Nat :=
   if FD0 ≤ s.fd && s.fd < FD0 + NFD then readyOf st s.fd &&& (s.events ||| POLLERR ||| POLLHUP ||| POLLNVAL) else 0
 
-/-- Deliver every pending signal under the loop's (empty) mask: the loop's handler records it. -/
+/-- Deliver every pending signal under the loop's (empty) mask: the handler records it in the loop
+    `signal_observer` points at — which need not be the loop that waits. -/
 def deliverPending (st : St) : St :=
-  { st with pendingSig := st.kpending.foldl (fun acc s => setInsert s acc) st.pendingSig, kpending := [] }
+  match st.observer with
+  | .self => { st with pendingSig := st.kpending.foldl (fun acc s => setInsert s acc) st.pendingSig, kpending := [] }
+  | .other => { st with otherPending := st.kpending.foldl (fun acc s => setInsert s acc) st.otherPending, kpending := [] }
+  | .none => { st with kpending := [] }
 
 /-- The kernel writes `revents` of every entry. -/
 def pollScan (st : St) : St :=
@@ -1003,8 +1024,14 @@ def cancelSigchld (st : St) : St :=
   | some a => watchCancel st a
   | none => st
 
+/-- `evloop_destroy` (lines 118–135): `if(signal_observer == evdata) signal_observer = NULL;` -/
+def observerAfterDestroy : Observer → Observer
+  | .self => .none
+  | o => o
+
 def destroyFinish (st : St) : St :=
-  if st.isOk then { st with alive := false, iow := [], timers := [], laters := [], signals := [], procs := [] } else st
+  if st.isOk then { st with alive := false, iow := [], timers := [], laters := [], signals := [], procs := [],
+                            observer := observerAfterDestroy st.observer } else st
 
 /-- `tickit_destroy`. -/
 def destroy (st : St) : St :=
